@@ -12,6 +12,8 @@ pub struct Trace {
     pub lines: Vec<String>,
     next_id: usize,
     pub thread: usize,
+    /// storage mix of the x / y query arrays for the next 2-D batch queries (see QCall::mix)
+    pub mix: u8,
 }
 
 fn hooks_json(h: &[Event]) -> (String, String) {
@@ -107,7 +109,7 @@ pub struct BufSpec {
 
 impl Trace {
     pub fn new() -> Self {
-        Trace { lines: vec![], next_id: 0, thread: 0 }
+        Trace { lines: vec![], next_id: 0, thread: 0, mix: 0 }
     }
 
     pub fn reset(&mut self, scenario: &str) {
@@ -223,6 +225,7 @@ impl Trace {
                 q: q.view(),
                 q2: q2.map(|r| r.view()),
                 buf: bufr.as_mut().map(|b| b.view_mut()),
+                mix: self.mix,
             };
             call(c)
         };
@@ -238,6 +241,7 @@ impl Trace {
             ("en", jstr(entry.name())),
             ("qtag", jstr(qtag)),
             ("qlay", jstr(q.lay.name())),
+            ("mix", self.mix.to_string()),
             ("q", jarr(&q.view())),
         ];
         if let Some(q2) = q2 {
